@@ -51,6 +51,23 @@ def live(seed, k, tier):
     return s
 
 
+def eq_start(seed, k):
+    """The market-cap equation phase begins at or before the first graded block: no PEG exists yet when the first rates are recorded
+    (PEG must be priced 0 whatever the winning record says), then PEG exists but nothing else, then FCT burns give the other side."""
+    L = dict(scen.LEG, GradingV2=1, PEGPricing=[1, 2, 3][k % 3], TxConv=4)
+    s = scen.Scn("c12-eq0-%d" % k, sched=L, seed=seed * 10 + 3 + k, assets=["PEG", "pUSD", "pFCT", "pXBT"])
+    us = [s.key("A1"), s.key("A2")]
+    for h in range(2, 11):
+        if h != 5:
+            s.grade(h, n=25, spr=False, rates={"PEG": scen.RATES["PEG"] + h * 1000})
+        if h in (3, 4):
+            s.burn(h, us[h % 2], 500 * 10**8)
+        if h == 6:
+            s.convert(h, us[0], "pFCT", 10**9, "pUSD", track=False)
+    s.tip(11)
+    return s
+
+
 def family(seed, tier):
     docs = []
     n = 2 if tier == "quick" else 8
@@ -61,6 +78,9 @@ def family(seed, tier):
         docs.append((g.s["name"], g.doc()))
     g = scen.snapshot_gap_chain(seed, name="c12-snapgap")
     docs.append((g.s["name"], g.doc()))
+    for k in range(1 if tier == "quick" else 3):
+        e = eq_start(seed, k)
+        docs.append((e.s["name"], e.doc()))
     return docs
 
 
@@ -68,7 +88,7 @@ def main():
     return lcheck.run_check(PID, family, {"C12"},
         rule="every combination of OPR / SPR winners (both, either, none, one record short) with the OPR rate inside, next to the edge of, and outside "
              "the tolerance band of each 2.0 era (1% / 0.1%, 10%, 25% incl. the exact 25% edges), PEG priced zero / by the market-cap equation over the committed "
-             "supply / floating in the legacy eras; TLC compares pn_rate of every height with Combine(winner OPR, winner SPR, era), requires unrated blocks to "
+             "supply / floating in the legacy eras (incl. an equation phase that starts before any PEG exists); TLC compares pn_rate of every height with Combine(winner OPR, winner SPR, era), requires unrated blocks to "
              "execute no pending conversion, and checks a digest of every earlier height's rates after every block (immutability); non-trivial = every graded block",
         corrupt=lcheck.corrupt_balance)
 
